@@ -87,13 +87,20 @@ def splitComma (s : List Nat) : List (List Nat) :=
   let r := s.foldr (fun c (acc : List Nat × List (List Nat)) => if c = 44 then ([], acc.1 :: acc.2) else (c :: acc.1, acc.2)) ([], [])
   r.1 :: r.2
 
+/-- the element mass an adduct ion is given: `ISOTOPIC_ATOMIC_MASSES[sym]`, or in average mode `AVERAGE_ATOMIC_MASSES[sym]`
+with the isotope's own mass for a specific isotope (`D`, `T`), which has no average mass -/
+def adductElemMass (mono : Bool) (sym : Key) : Option Rat :=
+  if mono then lookup sym isotopicMasses
+  else match lookup sym averageMasses with
+    | some m => some m
+    | none => lookup sym isotopicMasses
+
 /-- `_parse_adduct_mass(adduct, None, monoisotopic)` — note: the electron correction is NOT multiplied by the count -/
 def adductMass (mono : Bool) (s : List Nat) : Except Err Rat := do
   let (cnt, sym, ch) ← parseIonElements s
   if sym = kE then pure ((cnt : Rat) * Gen.electronMass)
   else
-    let tbl := if mono then isotopicMasses else averageMasses
-    match lookup sym tbl with
+    match adductElemMass mono sym with
     | none => .error .keyError
     | some m => pure ((cnt : Rat) * m - (ch : Rat) * Gen.electronMass)
 
@@ -107,8 +114,7 @@ def adductMassP (mono : Bool) (s : List Nat) (precision : Option Int) : Except E
   let (cnt, sym, ch) ← parseIonElements s
   if sym = kE then pure ((cnt : Rat) * Gen.electronMass)
   else
-    let tbl := if mono then isotopicMasses else averageMasses
-    match lookup sym tbl with
+    match adductElemMass mono sym with
     | none => .error .keyError
     | some m => pure (roundOpt ((cnt : Rat) * m - (ch : Rat) * Gen.electronMass) precision)
 
@@ -121,12 +127,25 @@ def chargeAdductsMassP (mono : Bool) (v : ModVal) (precision : Option Int) : Exc
     else do
       let m ← sumM (adductMass mono) (splitComma c)
       pure (roundOpt m precision)
-  | _ => .error .typeError
+  | _ => .error .valueError
 
-/-- `_parse_charge_adducts_mass` on a `Mod`/value: the value must be a string -/
+/-- `_parse_charge_adducts_mass` on a `Mod`/value: a numeric group (`/2[1]`) is an invalid charge adduct (ValueError) -/
 def chargeAdductsMass (mono : Bool) : ModVal → Except Err Rat
   | .str s => chargeAdductsMassStr mono (s.map Char.toNat)
-  | _ => .error .typeError
+  | _ => .error .valueError
+
+/-- `str(value)` of a modification value -/
+def valText : ModVal → List Char
+  | .int i => (toString i).toList
+  | .flt r => r
+  | .str s => s
+
+/-- the adduct groups of an annotation as one value: none for an empty list, the group itself for one group, the groups
+joined with `,` when there are several (`PEPTIDE/2[+Na+][+K+]`: all of them count) -/
+def adductsValue : List Mod → Option ModVal
+  | [] => none
+  | [m] => some m.val
+  | l => some (.str (",".toList.intercalate (l.map fun m => valText m.val)))
 
 /-! ### adjust_mass / adjust_mz -/
 
@@ -265,11 +284,9 @@ def effLabels (a : Annotation) (o : Opts) : Option (List Mod) :=
 
 def resolveArgs (a : Annotation) (o : Opts) : Except Err Resolved := do
   let charge := effCharge a o
-  let adducts ← match a.adducts, o.adducts with
-    | some l, none => match l with
-      | [] => .error .indexError
-      | m :: _ => pure (some m.val)
-    | _, x => pure x
+  let adducts := match a.adducts, o.adducts with
+    | some l, none => adductsValue l
+    | _, x => x
   let iso := effLabels a o
   pure ⟨charge, adducts, iso⟩
 
